@@ -73,6 +73,8 @@ def decode_content(coded, encoding):
         return coded, None
     try:
         if enc == 'gzip':
+            if coded[:1] != b'\x1f':
+                return coded, None      # not gzip at all: documented pass-through (decompression_test: test_gzip_decompressor_not_gzip)
             d = zlib.decompressobj(16 + zlib.MAX_WBITS)
             out = d.decompress(coded)
             out += d.flush()
